@@ -225,12 +225,12 @@ theorem v1_C01_txn_create (o : FOps) (d : Db) (x : Snap) (pr : Prep) (hp : prepa
     (fault = none → (out.raised = true ↔ ∃ e, dbCreate o d x = .throw e)) := by
   intro out
   have hshape := writeCmds_shape o d.schema x pr (nextId d) false
-  have hsound := C14.C14_shape_sound _ hshape fault auto d
+  have hsound := txn_shape_sound _ hshape fault auto d
   obtain ⟨hst, hnone⟩ := dbCreate_statements o d x pr hp
   refine ⟨hsound.1, ?_, ?_⟩
   · intro hr
     refine ⟨(hsound.2 hr).1, ?_⟩
-    have := C14.C14_all_writes _ hshape (writeCmds_noRollback o d.schema x pr (nextId d) false) fault auto d hr
+    have := txn_all_writes _ hshape (writeCmds_noRollback o d.schema x pr (nextId d) false) fault auto d hr
     exact (hst _).mp this
   · intro hf
     subst hf
@@ -249,12 +249,12 @@ theorem v1_C01_txn_update (o : FOps) (d : Db) (id : Int) (x : Snap) (pr : Prep) 
     (fault = none → (out.raised = true ↔ ∃ e, dbUpdate o d id x = .throw e)) := by
   intro out
   have hshape := writeCmds_shape o d.schema x pr id true
-  have hsound := C14.C14_shape_sound _ hshape fault auto d
+  have hsound := txn_shape_sound _ hshape fault auto d
   obtain ⟨hst, hnone⟩ := dbUpdate_statements o d id x pr hp
   refine ⟨hsound.1, ?_, ?_⟩
   · intro hr
     refine ⟨(hsound.2 hr).1, ?_⟩
-    have := C14.C14_all_writes _ hshape (writeCmds_noRollback o d.schema x pr id true) fault auto d hr
+    have := txn_all_writes _ hshape (writeCmds_noRollback o d.schema x pr id true) fault auto d hr
     exact (hst _).mp this
   · intro hf
     subst hf
@@ -286,7 +286,7 @@ theorem v1_C01_db_reject_unchanged (o : FOps) (d : Db) (x : Snap) (id : Int) (up
   | ok pr =>
     rw [hp] at h
     simp only at h ⊢
-    have hs := (C14.C14_shape_sound _ (writeCmds_shape o d.schema x pr id upd) fault auto d).1 h
+    have hs := (txn_shape_sound _ (writeCmds_shape o d.schema x pr id upd) fault auto d).1 h
     rw [hs]; rfl
   | throw e => rfl
   | ub u => rfl
